@@ -1,4 +1,6 @@
-(* C12, known finding c12-keyerror-rewrap: with the key test of the unchanged tree
+(* C12, HISTORICAL witness of c12-keyerror-rewrap (repaired in /repo by ac2c67a; listed under "fixed" in
+   known_findings.json; the statement about the current source is keyerror_survives_nested_wrappers).
+   With the key test of the tree before the repair
    (`preferred_type is KeyError`, identity_keys = [KeyError]) the type does NOT survive a second
    wrapper: the first wrapper turns a KeyError into MultilineMessageKeyError, which is not KeyError
    itself, has an initialiser of its own and is in no table, so the second wrapper re-raises it as
